@@ -240,6 +240,12 @@ def replay_imports(rp):
             "def f3():\n    import olpkg_v.sub\n    def g():\n        return olpkg_v.sub.subv\n    return g()\nr = f3()\n",
             "from .leaf import leafv as rv\nr = rv\n", "from ..mod import value as rv2\nfrom .. import top as rt\nr = (rv2, rt)\n", "from . import leaf as rl\nr = rl.leafv\n",
             "import olpkg_v.sub as S\nr = S.subv\n", "import olpkg_v as P\nr = P.top\n",
+            # the same package imported from twice in one scope: every statement imports (a submodule not loaded yet, a statement on a path not taken)
+            "from olpkg_v import top as t1\nfrom olpkg_v import mod as m2\nr = (t1, m2.value)\n",
+            "def f4(flag):\n    if flag:\n        from olpkg_v import top as a\n    else:\n        a = 0\n    from olpkg_v import mod as b\n    return a, b.value\nr = (f4(False), f4(True))\n",
+            "from olpkg_v.sub import subv as s1\nfrom olpkg_v.sub import leaf as l2\nr = (s1, l2.leafv)\n",
+            # a package that rebinds the name of its submodule: `import p.m as x` takes the ATTRIBUTE
+            "from olpkg_v.sub import leaf as first\nimport olpkg_v.sub\nolpkg_v.sub.leaf = 'rebound'\nfrom olpkg_v.sub import leaf as second\nr = (first.leafv, second)\n",
         ]
         import builtins
         for src in progs:
